@@ -861,7 +861,7 @@ def module_model(name):
             'any': Builtin(np_any, 'np.any'), 'all': Builtin(np_all, 'np.all'),
             'sum': Builtin(lambda I, a, **k: _sum(I, a), 'np.sum'),
             'intp': _DType('intp'), 'int64': _DType('int64'), 'float64': _DType('float64'), 'bool_': _DType('bool'),
-            'inf': None, 'abs': Builtin(_abs, 'np.abs'),
+            'inf': __import__('pyvc.values', fromlist=['INF']).INF, 'abs': Builtin(_abs, 'np.abs'),
             # dt is modelled as a real number (complex time steps are outside the modelled domain)
             'iscomplex': Builtin(lambda I, x: False, 'np.iscomplex'),
         })
